@@ -42,10 +42,11 @@ PROPS = {
                            B + "scheme", U + "add_schemes"], lemmas=L.STAB + L.C06L),
     "C07": dict(functions=[S + "hybrid_rush_larsen", S + "generalized_rush_larsen", S + "explicit_euler", S + "get_scheme",
                            U + "add_schemes", B + "scheme"], lemmas=[]),
-    "C08": dict(functions=["gotranx.transformer._same_definition", M + "sort_assignments", X + "build_expression.expr2symbols"], lemmas=[]),
+    "C08": dict(functions=["gotranx.transformer.TreeToODE.ode", "gotranx.transformer._same_definition", M + "sort_assignments",
+                           X + "build_expression.expr2symbols"], lemmas=L.C08L),
     "C09": dict(functions=[M + "sort_assignments", O + "sorted_assignments", O + "missing_variables", S + "get_scheme"] + ACCESSORS,
                 lemmas=[]),
-    "C10": dict(functions=[O + "__eq__", O + "sorted_assignments", M + "sort_assignments"] + ACCESSORS, lemmas=[]),
+    "C10": dict(functions=["gotranx.transformer.TreeToODE.ode", O + "__eq__", O + "sorted_assignments", M + "sort_assignments"] + ACCESSORS, lemmas=[]),
     "C11": dict(functions=ODE_PRINT, lemmas=[]),
     "C12": dict(functions=[O + "sorted_assignments", O + "dependents", B + "__init__", B + "_state_assignments",
                            B + "_parameter_assignments", B + "rhs", B + "scheme", B + "missing_values"] + SCHEMES,
@@ -54,8 +55,8 @@ PROPS = {
                            B + "missing_values", B + "rhs", B + "monitor_values", B + "scheme", TP + "missing_index", TC + "missing_index"],
                 lemmas=L.C13L),
     "C14": dict(functions=PY_PRINT + [B + "_shape_info", TP + "method"], lemmas=[]),
-    "C16": dict(functions=["gotranx.atoms.remove_singularities", T + "Conditional"], lemmas=L.STAB + L.C16L),
-    "C17": dict(functions=["gotranx.transformer.get_unit_and_comment_from_assignment"], lemmas=[]),
+    "C16": dict(functions=["gotranx.atoms.remove_singularities", "gotranx.atoms.Singularity.is_infinite", T + "Conditional"], lemmas=L.STAB + L.C16L),
+    "C17": dict(functions=["gotranx.transformer.get_unit_and_comment_from_assignment", "gotranx.transformer.TreeToODE.ode"], lemmas=[]),
     "C18": dict(functions=[G + "ode2py", G + "ode2c", G + "convert", G + "gotran2py.main", G + "gotran2c.main",
                            G + "gotran2py.get_code", G + "gotran2c.get_code", U + "add_schemes", U + "validate_scheme"], lemmas=[]),
     "C20": dict(functions=[T + "states_matrix", T + "rhs_matrix", T + "jacobi_matrix", O + "sorted_states",
